@@ -51,6 +51,11 @@ func (p Merge) Apply() ([]string, error) {
 			return []string{}, err
 		}
 		for _, file := range files {
+			// Only the emptied directories: a profile just moved here can
+			// have such a name too
+			if !paths.New(file).IsDir() {
+				continue
+			}
 			if err := paths.New(file).RemoveAll(); err != nil {
 				return res, err
 			}
